@@ -9,7 +9,7 @@ func init() {
 	register(&PropSpec{
 		ID: "C19",
 		Jobs: func(tier string, seed int64) []Job {
-			inits := []string{"a", "x", "s", "p", "nil", "[a,b]", "[0,1,2,3,4,5,6,7,8,a]", "{a:b}", "{1:1,2:2,3:3,4:4,5:a}", "func(y){y+a}", "[x, [a]]", "{1:x, 2:[a]}", "(n => (y => y+n))(a)",
+			inits := []string{"a", "x", "s", "p", "nil", "[a,b]", "[0,1,2,3,4,5,6,7,8,a]", "{a:b}", "{1:1,2:2,3:3,4:4,5:a}", "func(y){y+a}", "[x, [a]]", "{1:x, 2:[a]}", "(n => (y => y+n))(a)", "func KF(y){y+a}", "func KR(y){if y == 0 {return a}; KR(0)}",
 				// large-representation maps with few entries
 				"{1:a,1:b,1:c,1:a,1:b}", "(func(){m={1:1,2:2,3:3,4:4,5:a}; del(m[5]); del(m[4]); m})()", "(func(){m=[0,1,2,3,4,5,6,7,8,a]; m[0:2]})()"}
 			muts := []string{
@@ -19,7 +19,7 @@ func init() {
 				"for i = 2 {K = i}", "for i = 2 {K[0] = i}", "h = func(){K = b}; h()", "h = func(){func(){K[0] = b}()}; h()", "K = K", "K = a", "K, b",
 				// the "same value" again, up to what == ignores: int vs float inside containers, the sign of zero, a closure with the same text
 				"K = K * 1.0", "K = -K", "K = 0.0 - K", "K[0] = K[0] * 1.0", "K[0] = -K[0]", "K[1] = [a * 1.0]", "K[2] = [a * 1.0]", "K[a] = K[a] * 1.0", "K[5] = K[5] * 1.0", "K = [a * 1.0, b]", "K = {a: b * 1.0}", "K = [-x, [a]]", "K = {1: -x, 2: [a]}",
-				"K = (n => (y => y+n))(b)", "K = func(y){y+a}", "mk = n => (y => y+n); K = mk(c)",
+				"K = (n => (y => y+n))(b)", "K = func(y){y+a}", "mk = n => (y => y+n); K = mk(c)", "func gk(y){y+a}; K = gk", "func gk(y){if y == 0 {return a}; gk(0)}; K = gk",
 				"func g(u){u[0] = b; u}; g(K)", "L = K; L[0] = b", "L = K; L = L + [b]", "L = K; del(L[1])", "L = K + K", "[K][0][0] = b", "catch(K = b)", "K = b; K = c",
 			}
 			var jobs []Job
